@@ -115,13 +115,13 @@ func (a tokSet) meets(b tokSet) bool {
 }
 
 type ownState struct {
-	p      *core.Program
-	places map[string]tokSet // "v:<objptr>" or "*v:<objptr>"
-	freed  tokSet
+	p       *core.Program
+	places  map[string]tokSet // "v:<objptr>" or "*v:<objptr>"
+	freed   tokSet
 	freedAt map[int]token.Pos
-	next   int
-	viol   []ownViol
-	names  map[int]string
+	next    int
+	viol    []ownViol
+	names   map[int]string
 }
 
 type ownViol struct {
